@@ -140,6 +140,67 @@ func suiteScan(o *Out, thorough bool, seed int64) {
 			}
 		}
 	}
+	// every code point THROUGH THE SCANNER (not through the class functions): between two names it must behave as its
+	// class says - part of one identifier, a separator, or one unknown token of its own length
+	{
+		kindsOfText := func(text []byte) []int {
+			var ks []int
+			s := formula.CreateScanner(text, func(m *formula.DiagnosticMessage, pos int, length int) {})
+			for i := 0; i < 8; i++ {
+				k := s.Scan()
+				ks = append(ks, int(k))
+				if k == formula.SK_EndOfFile {
+					break
+				}
+			}
+			return ks
+		}
+		same := func(a, b []int) bool {
+			if len(a) != len(b) {
+				return false
+			}
+			for i := range a {
+				if a[i] != b[i] {
+					return false
+				}
+			}
+			return true
+		}
+		id, eof, unk := int(formula.SK_Identifier), int(formula.SK_EndOfFile), int(formula.SK_Unknown)
+		bad := 0
+		for c := rune(128); c <= 0x10FFFF && bad < 20; c++ {
+			if c >= 0xD800 && c <= 0xDFFF {
+				continue
+			}
+			mid := kindsOfText([]byte("x" + string(c) + "y"))
+			first := kindsOfText([]byte(string(c) + "y"))
+			var wantMid, wantFirst []int
+			switch {
+			case formula.IsIdentifierPart(c):
+				wantMid = []int{id, eof}
+			case formula.IsWhiteSpace(c) || formula.IsLineBreak(c):
+				wantMid = []int{id, id, eof}
+			default:
+				wantMid = []int{id, unk, id, eof}
+			}
+			switch {
+			case formula.IsIdentifierStart(c):
+				wantFirst = []int{id, eof}
+			case formula.IsWhiteSpace(c) || formula.IsLineBreak(c):
+				wantFirst = []int{id, eof}
+			default:
+				wantFirst = []int{unk, id, eof}
+			}
+			if !same(mid, wantMid) || !same(first, wantFirst) {
+				bad++
+				t := []byte("x" + string(c) + "y")
+				emit(t, true)
+				emit([]byte(string(c)+"y"), true)
+				o.Fail("SC\t"+hx(t), fmt.Sprintf("U+%04X between two names scans as token kinds %v (alone in front: %v), its classes require %v (%v)", c, mid, first, wantMid, wantFirst))
+			}
+		}
+		o.Case("NOP\tscan-all-code-points", "-", true)
+	}
 	// fixed texts for branches that random symbols reach once in a million: escapes in identifiers, keywords in other
 	// letter case or glued to a name, 3- and 4-byte characters outside strings, ill-formed UTF-8 of every kind, the
 	// diagnostics of malformed numbers and escapes, a backslash in front of a raw line break
